@@ -9,6 +9,7 @@ import (
 	"os"
 	"path/filepath"
 	"runtime"
+	"strings"
 
 	"verif/harness/oracle"
 	"verif/harness/sc"
@@ -138,4 +139,48 @@ func init() {
 		return false
 	}
 	Lifecycle["C09-restart-while-pending"] = m
+}
+
+func init() {
+	// Same root cause as C09-restart-while-pending, seen from C08: the live replacement is reported
+	// Completed by the stopped instance's late return, so a later restart/stop on it signals nothing
+	// and the restart never returns.
+	Lifecycle["C08-blocked-after-restart-while-pending"] = func(v oracle.V, h *sc.History, x *oracle.Idx) bool {
+		// the registry, not the status, decides whether a start is accepted: verdicts about two
+		// instances alive at once are never explained by the shared record
+		switch v.Kind {
+		case "two-live-instances", "start-of-running-accepted", "start-of-running-launched":
+			return false
+		}
+		words := strings.FieldsFunc(v.Msg, func(r rune) bool {
+			return !(r >= 'a' && r <= 'z' || r >= 'A' && r <= 'Z' || r >= '0' && r <= '9' || r == '_' || r == '-')
+		})
+		for _, a := range h.Applied {
+			if a.Step.Op != sc.OpRestart || !a.Applicable {
+				continue
+			}
+			p := a.Step.Proc
+			named := false
+			for _, w := range words {
+				named = named || w == p
+			}
+			if !named {
+				continue
+			}
+			sp := h.Scenario.Spec(p)
+			if sp == nil || !oracle.PendingInstanceAt(h.Events, p, a.SeqBefore, !sp.Disabled && !sp.Foreground) {
+				continue
+			}
+			live := false
+			for _, in := range x.Insts[p] {
+				if in.Launch < a.SeqBefore && (in.Exit < 0 || in.Exit > a.SeqBefore) {
+					live = true
+				}
+			}
+			if !live {
+				return true
+			}
+		}
+		return false
+	}
 }
